@@ -41,7 +41,10 @@ def build(rec, tmpdir=None):
               XORIG=-8., YORIG=-4., XCELL=2., YCELL=4.,
               VGLVLS=VG[:nl + 1].copy() if nl < 4 else VG.copy(), VGTOP=5000.,
               NCOLS=nc, NROWS=nr, NLAYS=nl)
-    if nl == len(VG) - 1:
+    if rec.get('vg') is not None:
+        fa['VGLVLS'] = np.array(rec['vg'], dtype='f')
+        assert len(rec['vg']) == nl + 1
+    elif nl == len(VG) - 1:
         fa['VGLVLS'] = VG.copy()
     else:
         lv = VG[:nl + 1].copy()
